@@ -1228,6 +1228,9 @@ class NameCheckVisitor(node_visitor.ReplacingNodeVisitor):
     ) -> AbstractContextManager[None]:
         return self.checker.assume_compatibility(left, right)
 
+    def has_assumed_compatibilities(self) -> bool:
+        return self.checker.has_assumed_compatibilities()
+
     def has_used_any_match(self) -> bool:
         """Whether Any was used to secure a match."""
         return self._has_used_any_match
